@@ -239,9 +239,15 @@ def cells(draw, families=FAMILIES, lo=2.0, hi=30.0, amin=55.0, amax=125.0):
     return fam, [a, draw(L), draw(L), al, be, ga]
 
 
+def cosd(x):
+    """cosine of an angle in degrees, exact at 60, 90 and 120 (cos(radians(90)) is 6e-17, which would put 1e-17 into
+    places of a matrix that are exactly zero for a rectangular cell)"""
+    return {60.0: 0.5, 90.0: 0.0, 120.0: -0.5}.get(float(x), np.cos(np.radians(x)))
+
+
 def gram(cell):
     a, b, c, al, be, ga = cell
-    ca, cb, cg = [np.cos(np.radians(x)) for x in (al, be, ga)]
+    ca, cb, cg = [cosd(x) for x in (al, be, ga)]
     return np.array([[a * a, a * b * cg, a * c * cb],
                      [a * b * cg, b * b, b * c * ca],
                      [a * c * cb, b * c * ca, c * c]])
